@@ -321,9 +321,10 @@ def failure_class(sql, dialect, strict, prepared, small, ctxs):
     if mirrored != [list(r) for r in small] and pair_fails(sql, dialect, mirrored, strict, prepared) is None:
         # the same rewrite applied to every occurrence of the repeated query text keeps the result
         return "rewrite-inside-one-of-several-identical-query-texts"
-    if gaps_only and all(c["before_parent"] == "function_name" and c["after"] == "(" for c in ctxs) and \
-            all(in_scalar_subquery(cl.parents[r[1]]) for r in small):
-        return "function-call-gap-inside-scalar-subquery-of-select-item"
+    if gaps_only and all((c["before_parent"] == "function_name" and c["after"] == "(") or "." in (c["before"], c["after"]) for c in ctxs) and \
+            all(in_scalar_subquery(cl.parents[r[1]]) and in_scalar_subquery(cl.parents[r[1] - 1]) for r in small):
+        # the subquery's raw text goes to the sqlparse-based analyzer, which is sensitive to these two gaps
+        return "function-call-or-dot-gap-inside-scalar-subquery-of-select-item"
     return None
 
 
